@@ -49,3 +49,12 @@ func Catch(f func()) (panicked bool, val any) {
 	f()
 	return false, nil
 }
+
+// TraceShared makes the engine log every read/write of the heap cells reachable
+// from x (struct fields, nested structs, maps as a whole, and structs later
+// stored in those maps) under the given name, plus Mutex/Once events on them.
+func TraceShared(x any, name string)
+
+// TraceTake returns the logged events ("R cell", "W cell", "L cell", "U cell",
+// "ONCE-..." ) and stops tracing.
+func TraceTake() []string
